@@ -110,6 +110,22 @@ contract(f"{RT}::RoutingTable.add", "RoutingTable.add.split-only-on-own-path",
          on_effect={"trie.set": ["owns_spec(P, me)", "args[0] in (P + '0', P + '1')", "args[1].prefix_id == args[0]"],
                     "trie.del": ["owns_spec(P, me)", "args[0] == P", "len(calls('trie.set')) == 2"],
                     "retry": ["len(calls('trie.del')) == 1"]},
-         ensures=["implies(not owns_spec(P, me), len(trace()) == 0)"],
+         ensures=["implies(not owns_spec(P, me), len(trace()) == 0)",
+                  # whatever ends up in the trie respects capacity and ownership when the call returns (the new node may only enter a
+                  # child through an operation that checks capacity - never by writing into the child directly)
+                  "all(len(e.args[1].nodes) <= cap and all(owns_spec(e.args[0], k) for k in e.args[1].nodes) for e in calls('trie.set'))",
+                  "all(e.args[1].nodes[k]._idv == k for e in calls('trie.set') for k in e.args[1].nodes)"],
          bounded=BOUND,
          note="a full bucket is replaced by its two children only if it owns our own identifier; then the add is retried")
+
+
+# ---------------------------------------------------------------------------------------------------------------------
+# BOUNDED native stand-in (sampling on the real code, not a proof) for what the verifier cannot reach: the Trie walk, sorting by XOR
+# distance over 160-bit identifiers, and whole histories of the table.
+native("routing-table-histories", "natives/c14_routing.py",
+       bound="quick: 4 histories x 500 steps (add / mark failed / purge), half with ids clustered around our own id; invariants and 8 "
+             "closest_nodes probes (k = 1..20, BAD neighbourhoods) every 50 steps.  thorough: 12 histories x 1500 steps",
+       functions=[f"{RT}::RoutingTable.add", f"{RT}::RoutingTable.closest_nodes", f"{RT}::RoutingTable.remove_bad_nodes",
+                  f"{RT}::RoutingTable.get_bucket", "ipv8/dht/trie.py::Trie.longest_prefix_item", "ipv8/dht/trie.py::Trie.suffixes"],
+       note="prefixes partition the id space, nodes sit in their owning bucket within capacity, only own-path buckets are split, "
+            "closest_nodes equals the brute-force k nearest live nodes")
